@@ -66,6 +66,9 @@ FAULTS = [
     ('a_statement_no_variant_accepts', 'ld8 ra'),
     ('a_value_its_field_cannot_hold', 'ld8 big'),
     ('a_value_its_field_cannot_hold', 'ld16 big * 256'),
+    ('a_value_its_field_cannot_hold', 'ld12 negbig'),
+    ('a_value_its_field_cannot_hold', 'ld12 posbig'),
+    ('a_value_its_field_cannot_hold', 'ld12 0 - posbig'),
     ('a_garbled_line', '.byte 1 2'),
     ('a_garbled_line', '.org'),
     ('a_garbled_line', '.fill 3'),
@@ -137,6 +140,8 @@ def shapes(tier, seed):
             lines.insert(at, text)
             cs = dict(consts)
             cs['big'] = (70000, 90000)
+            cs['negbig'] = (-4095, -2049)       # fits neither the signed nor the unsigned range of a 12-bit field
+            cs['posbig'] = (4096, 9000)
             S.append(BadProgram(f'fault:{fault}:{k}', prog={'main.asm': prog}, files={'main.asm': '\n'.join(lines) + '\n'},
                                 fault=fault, cfgargs=dict(origin=Sym('o0', 0, 0x800), consts=cs), props=['C14'], binary=True,
                                 start=Sym('o0', 0, 0x800), width=40))
